@@ -277,6 +277,34 @@ def run_case(spec):
             if np.shares_memory(np.asarray(sm.sites), np.asarray(mesh.sites)):
                 viol("smoothed_mesh_aliases_source_sites", {"iterations": it})
 
+    # ---- the SAME Mesh object with other (positive) cell areas / dual edge lengths written into its arrays: operators built
+    # afterwards belong to the new data (nothing may be remembered per mesh object)
+    try:
+        areas_arr, duals_arr = mesh.areas, em.dual_edge_lengths
+        writable = isinstance(areas_arr, np.ndarray) and isinstance(duals_arr, np.ndarray) and areas_arr.flags.writeable and duals_arr.flags.writeable
+    except Exception:
+        writable = False
+    if writable:
+        areas_arr *= rng.uniform(0.5, 2.0, n)
+        duals_arr *= rng.uniform(0.5, 2.0, m)
+        D2 = ops.build_divergence(mesh)
+        G2 = ops.build_gradient(mesh)
+        L2, _ = ops.build_laplacian(mesh)
+        L2 = sp.csr_matrix(L2)
+        C["rebuilt_after_data_change"] = 1
+        d = fv.max_abs_diff(L2, D2 @ G2)
+        if note("lap_eq_div_grad", d, 1e-10 * abs(L2).max()):
+            viol("lap_ne_div_grad", {"after": "areas and dual edge lengths of the same Mesh object changed", "max_abs_diff": d})
+        F = rng.normal(size=m)
+        tot, mag = float(areas_arr @ (D2 @ F)), float(areas_arr @ (abs(D2) @ np.abs(F)))
+        if note("div_sums_to_zero", abs(tot), 1e-11 * mag):
+            viol("div_sum_nonzero", {"after": "areas and dual edge lengths of the same Mesh object changed", "sum": tot, "magnitude": mag})
+        Dref = fv.divergence(n, em.edges, duals_arr, areas_arr)
+        if Dref is not None:
+            d = fv.max_abs_diff(sp.csr_matrix(D2), Dref)
+            if note("entrywise_reference", d, 1e-12 * abs(Dref).max()):
+                viol("divergence_ne_reference", {"after": "data change", "max_abs_diff": d})
+
     kind = spec["mesh"]["kind"] + ("/" + spec["mesh"].get("shape", "") if spec["mesh"].get("shape") else "")
     if spec["mesh"]["kind"] == "explicit":
         kind += f"/{spec['mesh']['base']['kind']}/dec{spec['mesh']['decades']}"
